@@ -192,5 +192,16 @@ func (c *connection) RouteReply(msg Message) bool {
 		return e.replies.route(msg.SystemBytes(), replyResult{err: &RejectError{Reason: header[3]}})
 	}
 
+	// A control RESPONSE (Select/Deselect/Linktest.rsp) can only complete a CONTROL transaction. If its
+	// System Bytes match an open DATA transaction it is not that transaction's reply: delivering it would
+	// make SendDataMessage/SendSECS2Message return (nil, nil) — the control message is not a *DataMessage
+	// — and swallow the genuine reply that follows. Report a miss instead, so the caller answers
+	// Reject(TransactionNotOpen) per §8.3.20 and the data transaction keeps waiting for its own reply.
+	if _, isData := msg.(*DataMessage); !isData {
+		if _, open := e.dataTx.Load(msg.SystemBytes()); open {
+			return false
+		}
+	}
+
 	return e.replies.route(msg.SystemBytes(), replyResult{msg: msg})
 }
